@@ -759,26 +759,41 @@ def run_wire_engine(ctx, spec):
     out = os.path.join(CACHE, "run", f"{ctx.pid}_wire")
     if os.path.exists(out):
         shutil.rmtree(out)
-    vlib.sh([os.path.join(CACHE, "harness"), "wire", "--seed", str(ctx.seed), "--n", str(n), "--out", out], timeout=1200)
+    nstates = spec.get("states_quick", 0) if ctx.tier == "quick" else spec.get("states_thorough", 0)
+    vlib.sh([os.path.join(CACHE, "harness"), "wire", "--seed", str(ctx.seed), "--n", str(n), "--states", str(nstates), "--out", out], timeout=1200)
     s = json.load(open(os.path.join(out, "summary.json")))
     bad = []
-    for sh_ in s["shards"]:
-        p = subprocess.run(["timeout", "1200", "coqc", "-Q", COQ, "ColumnV", sh_], cwd=out, stdout=subprocess.PIPE, stderr=subprocess.STDOUT, text=True, preexec_fn=vlib.big_stack)
+
+    def one(sh_):
+        return sh_, subprocess.run(["timeout", "1200", "coqc", "-Q", COQ, "ColumnV", sh_], cwd=out, stdout=subprocess.PIPE, stderr=subprocess.STDOUT, text=True, preexec_fn=vlib.big_stack)
+    import concurrent.futures
+    with concurrent.futures.ThreadPoolExecutor(max_workers=12) as ex:
+        results = list(ex.map(one, s["shards"]))
+    for sh_, p in results:
         m = re.search(r"M\s*=\s*(.*?)\n\s*:\s*list", p.stdout, re.S)
         if p.returncode != 0 or not m:
-            ctx.violation("correspondence", "WireCommit.v could not be evaluated on the recorded commits: " + p.stdout[-1200:], found_input=False)
+            ctx.violation("correspondence", f"WireCommit.v / WireState.v could not be evaluated on the recorded cases ({os.path.basename(sh_)}): " + p.stdout[-1200:], found_input=False)
             continue
         bad += [(int(a), int(b)) for a, b in re.findall(r"\((\d+),\s*(\d+)\)", m.group(1))]
     ctx.checker_cmds.append(f".cache/harness wire --seed {ctx.seed} --n {n}; coqc <shards>   # commit_enc vs Commit.WriteTo, commit_dec vs ReadFrom on prefixes")
     cov = ctx.coverage
-    cov["evaluations"] += s["cases"] + s["cuts"]
-    cov["distinct_nontrivial"] += s["cases"]
-    cov.setdefault("engines", []).append({"engine": "wire", "commits": s["cases"], "buffers": s.get("buffers", 0), "prefix_verdicts": s["cuts"], "bytes": s["bytes"], "model_disagreements": len(bad)})
+    cov["evaluations"] += s["cases"] + s["cuts"] + s.get("states", 0)
+    cov["distinct_nontrivial"] += s["cases"] + s.get("states", 0)
+    cov.setdefault("engines", []).append({"engine": "wire", "commits": s["cases"], "buffers": s.get("buffers", 0), "prefix_verdicts": s["cuts"], "bytes": s["bytes"],
+                                          "snapshots_vs_WireState": s.get("states", 0), "snapshot_stream_bytes": s.get("state_bytes", 0), "model_disagreements": len(bad)})
+    for f in (s.get("failures") or [])[:3]:
+        ctx.violation("wire", f, data={"engine": "wire", "seed": ctx.seed, "failure": f})
+    swhat = {1: "the state stream writeState produced differs from WireState.state_enc of what the real readers parse from it", 2: "WireState.state_dec reads the real state stream differently from the real readers",
+             3: "a strict prefix of a real state stream is not reported Short by state_dec", 4: "a block of the state stream does not carry the announced number of buffers",
+             5: "the recorded commits' bytes differ from log_bytes commit_enc", 6: "restore_bytes does not restore the complete (s2-decoded) snapshot to the parsed state and commits",
+             7: "restore_bytes on a prefix of a real (s2-decoded) snapshot yields something other than the state plus a prefix of the commits"}
     cov["samples"] += [{"engine": "wire", "case(commit,bytes,cuts)": x[:500]} for x in (s.get("samples") or [])[:1]]
     what = {1: "Commit.WriteTo's bytes differ from commit_enc", 2: "commit_dec does not decode the bytes back to the commit", 3: "Commit.ReadFrom accepts/rejects a prefix differently from commit_dec"}
     for case, tag in bad[:4]:
         w = what.get(tag, str(tag))
-        if case >= 100000:
+        if case >= 200000:
+            w = swhat.get(tag, str(tag))
+        elif case >= 100000:
             w = w.replace("Commit.WriteTo", "Buffer.WriteTo").replace("commit_enc", "wbuffer_enc").replace("commit_dec", "wbuffer_dec")
         ctx.violation("wire", f"{w} (generated case {case}, seed {ctx.seed})", data={"engine": "wire", "seed": ctx.seed, "case": case, "tag": tag})
 
@@ -813,7 +828,7 @@ PROPS = {
                 rule="insert/delete heavy histories; non-trivial = >=3 inserts with a delete or offset reuse"),
     "C12": dict(engines=[H("keys", 70, 900)],
                 rule="keyed histories over a 6-key alphabet; non-trivial = >=3 key operations"),
-    "C13": dict(engines=[dict(engine="persist", kind="trunc", quick=8, thorough=40), dict(engine="wire", quick=120, thorough=1500)],
+    "C13": dict(engines=[dict(engine="persist", kind="trunc", quick=8, thorough=40), dict(engine="wire", quick=120, thorough=1500, states_quick=16, states_thorough=160)],
                 level_text="theorems about the prefix-safe parsers and the log / restore prefix property (Wire.v, every prefix, no bound) + fault enumeration on the implementation: every sampled prefix (every byte in the thorough tier) of real snapshot and log files is restored; s2 framing is trusted",
                 rule="snapshot files (random history, 0-3 transactions committed during the snapshot) and commit-log files cut at: the first 24 bytes, the state/log boundary +-6, the last 200 bytes, 120 random offsets (every offset in the thorough tier); every cut is a distinct case"),
     "C14": dict(engines=[dict(engine="persist", kind="fault", quick=3, thorough=9), S("snap", 300, 3000, locks=False)],
